@@ -117,8 +117,13 @@ class StubProc:
         self.exitcode = 0 if self.death is None else -9
 
     def join(self, timeout=None):
-        if not self.dead:
-            self._exit()
+        if self.dead or not self.started:
+            return
+        if timeout is not None:
+            # a join with a timeout may return while the worker is still shutting down (exitcode stays None)
+            if ENV[0].sched.fresh(0, 1, "join-timeout(w%d)" % ENV[0].procs.index(self)) == 1:
+                return
+        self._exit()
 
 
 class HangDetected(BaseException):
